@@ -189,7 +189,7 @@ pub fn op_from(c: &mut Cur, p: &Profile) -> Op {
         14 => Op::SrvPubrel { pid: c.below(4) as u8 },
         15 => Op::SrvDisconnect,
         16 => {
-            let kinds = [Adv::WrongTypeAck, Adv::UnknownIdAck, Adv::DuplicateAck, Adv::ReasonCountMismatch, Adv::Auth, Adv::SecondConnack, Adv::Garbage, Adv::Truncated, Adv::UnsolicitedPingresp, Adv::PublishPidZero, Adv::BadAlias, Adv::PubcompBeforePubrel, Adv::ServerDisconnectBeforeConnack, Adv::OversizedPacket];
+            let kinds = [Adv::WrongTypeAck, Adv::UnknownIdAck, Adv::DuplicateAck, Adv::ReasonCountMismatch, Adv::Auth, Adv::SecondConnack, Adv::Garbage, Adv::Truncated, Adv::UnsolicitedPingresp, Adv::PublishPidZero, Adv::BadAlias, Adv::PubcompBeforePubrel, Adv::ServerDisconnectBeforeConnack, Adv::OversizedPacket, Adv::ClientOnlyPacket];
             let kind = c.pick(&kinds);
             Op::Adversary { kind, ix: c.u16() }
         }
